@@ -20,7 +20,7 @@ def Mem_GetExpiration : List String := ["mu.RLock", "@m.data", "{ret", "mu.RUnlo
 def Mem_GetHash : List String := ["mu.RLock", "@m.data", "{ret", "mu.RUnlock", "}", "IsZero", "@item.Expiration", "After", "@item.Expiration", "@hash", "@item.Value", "@hash", "mu.RUnlock", "{ret", "mu.Lock", "@m.data", "IsZero", "@item.Expiration", "After", "@item.Expiration", "delete", "@m.data", "mu.Unlock", "}", "{ret", "}", "{ret", "}"]
 def Mem_GetList : List String := ["m.Get", "{ret", "}", "{ret", "}"]
 def Mem_Incr : List String := ["m.IncrBy"]
-def Mem_IncrBy : List String := ["mu.Lock", "defer mu.Unlock", "@m.data", "Add", "@m.data", "IsZero", "@item.Expiration", "After", "@item.Expiration", "@item.Value", "@item.Expiration", "Add", "@item.Value", "{ret", "@item.Value", "}"]
+def Mem_IncrBy : List String := ["mu.Lock", "defer mu.Unlock", "@m.data", "Add", "@m.data", "IsZero", "@item.Expiration", "After", "@item.Expiration", "@item.Expiration", "Add", "@item.Value", "{ret", "@item.Value", "}"]
 def Mem_RemoveFromList : List String := ["mu.Lock", "defer mu.Unlock", "@m.data", "{ret", "}", "IsZero", "@item.Expiration", "After", "@item.Expiration", "{ret", "delete", "@m.data", "}", "@item.Value", "{ret", "@item.Value", "}"]
 def Mem_Set : List String := ["mu.Lock", "defer mu.Unlock", "@m.data", "@m.data", "Add", "@m.data"]
 def Mem_SetExpiration : List String := ["mu.Lock", "defer mu.Unlock", "@m.data", "{ret", "}", "IsZero", "@item.Expiration", "After", "@item.Expiration", "{ret", "delete", "@m.data", "}", "@item.Expiration", "expirationFor"]
